@@ -136,16 +136,110 @@ func implInject(k int, inTry bool, vars, prog string) string {
 	return esc + ";" + restTok(vm) + ";" + tr + ";" + followTok(vm)
 }
 
+// implDepthSeq: k stack overflows inside ONE Run, each caught (how=script: by try/catch where it
+// happens; how=host: by a Go host function that swallows the error of Value.Call), and after each a
+// probe of how many nested calls the limit admits.
+func implDepthSeq(L, k int, how string) string {
+	vm := otto.New()
+	vm.SetStackDepthLimit(L)
+	vm.Set("swallow", func(call otto.FunctionCall) otto.Value {
+		call.Argument(0).Call(otto.UndefinedValue())
+		return otto.UndefinedValue()
+	})
+	over := `try { deep() } catch (e) {}`
+	if how == "host" {
+		over = `try { swallow(deep) } catch (e) {}`
+	}
+	v, err := vm.Run(`var out = []; function deep(){ deep() }
+function probe(n){ try { return probe(n + 1) } catch (e) { return n } }
+var p; try { p = probe(1) } catch (e) { p = 0 } out.push(p);
+for (var i = 0; i < ` + fmt.Sprint(k) + `; i++) { ` + over + `; try { p = probe(1) } catch (e) { p = 0 } out.push(p) } out.join()`)
+	res := ""
+	if err != nil {
+		res = "err:" + strings.ReplaceAll(err.Error(), " ", "_")
+	} else {
+		res = v.String()
+	}
+	return res + ";" + restTok(vm) + ";" + followTok(vm)
+}
+
+// reenterScript is what the benign interrupt function runs ON THE SAME RUNTIME: labelled loops and
+// blocks, a call, try/finally, a caught and an uncaught exception, a direct eval.
+const reenterScript = `var __r = 0; A: for (var __a = 0; __a < 2; __a++) { B: { for (;;) { __r++; if (__a) break B; continue A } } }
+try { (function(){ throw 1 })() } catch (__e) { __r += 10 } finally { __r += 100 }
+C: do { __r += eval("1000"); continue C } while (false); if (__r != 1112) throw new Error("reenter:" + __r); null.x`
+
+// implReenter delivers, at evaluation step k, an interrupt function that does not panic but runs
+// script on the runtime it interrupts (Run, Call, Eval); the interrupted program has to go on exactly
+// as if nothing had happened: same host-call trace, same outcome, runtime at rest, follow-up fine.
+func implReenter(k int, vars, prog string) string {
+	src := mujs.RenderJS(vars, prog)
+	var want []string
+	vm0 := newVM(&want)
+	v0, err0 := vm0.Run(src)
+	_, lens, _ := countSteps(src)
+	if k >= len(lens) {
+		return "k-out-of-range"
+	}
+	var logged []string
+	vm := newVM(&logged)
+	vm.Interrupt = make(chan func(), 1)
+	step, inner := 0, ""
+	otto.VerifStepHook = func(depth, labels int) {
+		if step == k {
+			vm.Interrupt <- func() {
+				otto.VerifStepHook = nil
+				_, err := vm.Run(reenterScript)
+				if err == nil || !strings.Contains(err.Error(), "TypeError") {
+					inner = fmt.Sprint("inner-run:", err)
+				}
+				if v, err := vm.Call(`(function(){ L: for (var i = 0; i < 2; i++) { for (;;) { continue L } } return 7 })`, nil); err != nil || v.String() != "7" {
+					inner = fmt.Sprint("inner-call:", v, err)
+				}
+				vm.Eval(`M: { break M }`)
+			}
+		}
+		step++
+	}
+	out := "same"
+	func() {
+		defer func() {
+			otto.VerifStepHook = nil
+			if r := recover(); r != nil {
+				out = "gopanic:" + strings.ReplaceAll(fmt.Sprint(r), " ", "_")
+			}
+		}()
+		v, err := vm.Run(src)
+		switch {
+		case (err == nil) != (err0 == nil):
+			out = "outcome-differs"
+		case err != nil && err.Error() != err0.Error():
+			out = "error-differs"
+		case err == nil && mujs.Tok(v) != mujs.Tok(v0):
+			out = "value-differs(" + mujs.Tok(v) + "|want|" + mujs.Tok(v0) + ")"
+		}
+	}()
+	if inner != "" {
+		out = strings.ReplaceAll(inner, " ", "_")
+	}
+	if strings.Join(want, ",") != strings.Join(logged, ",") {
+		out += ";trace:differs(" + strings.Join(logged, ",") + "|want|" + strings.Join(want, ",") + ")"
+	} else {
+		out += ";trace:same"
+	}
+	return out + ";" + restTok(vm) + ";" + followTok(vm)
+}
+
 // leaves: what the innermost of the d script calls does; extra = additional nested scopes it enters
 var depthLeaves = []struct {
 	js    string
 	extra int
 }{
 	{`0`, 0},
-	{`Math.abs(0)`, 1},                               // a native function: one more scope
-	{`[7].map(function(x){ return 0 })[0]`, 2},       // native calling back into script: two more
-	{`(function(){ return 0 }).call(null)`, 2},       // Function.prototype.call (native) + the target
-	{`parseInt.apply(null, ["0"])`, 2},               // apply (native) + parseInt (native)
+	{`Math.abs(0)`, 1}, // a native function: one more scope
+	{`[7].map(function(x){ return 0 })[0]`, 2},        // native calling back into script: two more
+	{`(function(){ return 0 }).call(null)`, 2},        // Function.prototype.call (native) + the target
+	{`parseInt.apply(null, ["0"])`, 2},                // apply (native) + parseInt (native)
 	{`String.prototype.charAt.bind("0", 0)() - 0`, 1}, // bound: passthrough site, then the native target
 }
 
@@ -273,6 +367,13 @@ func implC18(line string) string {
 	case "inject":
 		fmt.Sscan(f[1], &a)
 		return implInject(a, f[2] == "intry", f[3], f[4])
+	case "depthseq":
+		fmt.Sscan(f[1], &a)
+		fmt.Sscan(f[2], &b)
+		return implDepthSeq(a, b, f[3])
+	case "reenter":
+		fmt.Sscan(f[1], &a)
+		return implReenter(a, f[2], f[3])
 	case "depth":
 		fmt.Sscan(f[1], &a)
 		fmt.Sscan(f[2], &b)
@@ -286,6 +387,35 @@ func implC18(line string) string {
 		return implInterrupt(a)
 	}
 	return "bad-op"
+}
+
+func reenterTemplates() []string {
+	pre := "V(asg(x,n0),asg(y,n0),asg(n,n0))"
+	cnt := "X(asg(n,add(var(n),n1)))"
+	post := "X(log(var(n))),X(log(var(x)))"
+	// jumps: how the labelled continue / break is reached inside the loop body
+	jumps := []string{
+		"C(l1)", "K(l1)",
+		"W(t,B(C(l1)))", "D(B(C(l1)),t)", "F(_,_,_,B(C(l1)))", "F(_,_,_,B(K(l1)))",
+		"S(n1,c(n1,C(l1)))", "Y(B(C(l1)),0,e,B(),1,B(" + cnt + "))", "Y(B(T(n1)),1,e,B(C(l1)),0,B())",
+		"L(l2,W(t,B(I(lt(var(y),n1),C(l1),K(l2)))))", "B(B(C(l1)))", "I(t,C(l1),E)",
+	}
+	var out []string
+	for _, j := range jumps {
+		body := "B(" + cnt + ",X(log(var(x)))," + j + ",X(log(n9)))"
+		loops := []string{
+			"F(asg(x,n0),lt(var(x),n3),asg(x,add(var(x),n1))," + body + ")",
+			"W(lt(asg(x,add(var(x),n1)),n3)," + body + ")",
+			"D(" + body + ",lt(asg(x,add(var(x),n1)),n3))",
+		}
+		for _, l := range loops {
+			out = append(out, "P("+pre+",L(l1,"+l+"),"+post+")")
+			out = append(out, "P("+pre+",L(l0,L(l1,"+l+")),"+post+")")
+			out = append(out, "P("+pre+",L(l1,L(l3,"+l+")),"+post+")")
+			out = append(out, "P("+pre+",L(l9,B(X(log(n7)),L(l1,"+l+"),K(l9),X(log(n8)))),"+post+")")
+		}
+	}
+	return out
 }
 
 func genC18(c *h.Ctx) {
@@ -308,6 +438,30 @@ func genC18(c *h.Ctx) {
 			}
 		}
 	}
+	for L := 2; L <= maxL; L++ { // with L = 1 global code cannot call anything, not even out.push
+		for _, k := range []int{1, 2, 3, L - 1, L, L + 2} {
+			if k < 1 || k > 40 {
+				continue
+			}
+			c.Add(fmt.Sprintf("depthseq %d %d script", L, k), "depthseq:caught-by-script")
+			c.Add(fmt.Sprintf("depthseq %d %d host", L, k), "depthseq:swallowed-by-host")
+		}
+	}
+	// labelled loops of every kind with the labelled continue/break taken from every position: the
+	// window between a label push and the loop that takes it over is one particular step k
+	for ti, prog := range reenterTemplates() {
+		steps, _, _, intry := countSteps2(mujs.RenderJS("x,y,n", prog), true)
+		for k := 0; k < steps && k < 400; k++ {
+			c.Add(fmt.Sprintf("reenter %d x,y,n %s", k, prog), fmt.Sprintf("reenter:template%d", ti%4))
+			if k%3 == 0 {
+				w := "free"
+				if intry[k] {
+					w = "intry"
+				}
+				c.Add(fmt.Sprintf("inject %d %s x,y,n %s", k, w, prog), "inject:labelled-loop-template")
+			}
+		}
+	}
 	n := c.N(150, 6000)
 	for i := 0; i < n; i++ {
 		vars, prog, _ := mujs.GenProgram(c.Rng.Fork(), 6+c.Rng.Intn(25))
@@ -323,6 +477,7 @@ func genC18(c *h.Ctx) {
 			}
 		}
 		for _, k := range ks {
+			c.Add(fmt.Sprintf("reenter %d %s %s", k, vars, prog), "reenter:benign-interrupt-running-script")
 			if intry[k] {
 				c.Add(fmt.Sprintf("inject %d intry %s %s", k, vars, prog), "inject:inside-try")
 			} else if strings.Contains(prog, "Y(") {
